@@ -132,6 +132,7 @@ def main(run):
     run.prove(extra_targets=["proofs/Pinned_comm.vo"])
     model_ok = run.build_model()
     run.run_findings()
+    run.pylite(["reassembly", "frame"])
     if model_ok:
         cs = cases(run)
         for what, c, m in run.differential(cs):
